@@ -3,6 +3,8 @@ package main
 import (
 	"fmt"
 	"go/token"
+	"go/types"
+	"regexp"
 	"sort"
 	"strings"
 
@@ -187,6 +189,52 @@ func checkC17(c *Ctx) {
 			})
 		}
 	}
+	// ---- coordinate coverage of extension-field inputs in the verifier packages
+	c.Rule("C17.coverage", "COORDINATE-COVERAGE: a predicate of a verifier package (result bool or error) that reads an extension-field input coordinate by coordinate reads every base-field coordinate of it; a coordinate that is never read is never checked (e.g. the Reed-Solomon test applied to three of the four coordinates of E4)", 2)
+	for _, fn := range libFuncs(p) {
+		pk := relPkg(fnPkgPath(fn))
+		if fn.Parent() != nil || !(strings.HasSuffix(pk, "/vortex") || strings.HasSuffix(pk, "/fri") || strings.HasSuffix(pk, "/sumcheck") || strings.HasSuffix(pk, "/plookup") || strings.HasSuffix(pk, "/permutation") || strings.HasSuffix(pk, "/shplonk") || strings.HasSuffix(pk, "/fflonk") || strings.HasSuffix(pk, "/kzg")) {
+			continue
+		}
+		res := fn.Signature.Results()
+		pred := false
+		for i := 0; i < res.Len(); i++ {
+			if isErrorType(res.At(i).Type()) || types.Identical(res.At(i).Type().Underlying(), types.Typ[types.Bool]) {
+				pred = true
+			}
+		}
+		if !pred {
+			continue
+		}
+		hasExt := false
+		for _, par := range fn.Params {
+			var el types.Type
+			switch u := par.Type().Underlying().(type) {
+			case *types.Slice:
+				el = u.Elem()
+			case *types.Pointer:
+				el = u.Elem()
+			}
+			if el != nil && regexp.MustCompile(`^E\d+$`).MatchString(namedName(el)) {
+				hasExt = true
+			}
+		}
+		if !hasExt {
+			continue
+		}
+		c.Instance("C17.coverage", 1)
+		miss := coordinateCoverage(fn)
+		ok := true
+		msg := ""
+		for pi, m := range miss {
+			if !regexp.MustCompile(`^E\d+$`).MatchString(namedName(elemOf(fn.Params[pi].Type()))) {
+				continue
+			}
+			ok = false
+			msg = fmt.Sprintf("%s: of the coordinates of %s (%s) the function reads some but never %s: that coordinate is not checked", funcKey(fn), fn.Params[pi].Name(), namedName(elemOf(fn.Params[pi].Type())), strings.Join(m, ", "))
+		}
+		c.Ob("C17.coverage", pk, funcKey(fn), "all-coordinates-read", p.Pos(fn.Pos()), ok, msg)
+	}
 	c.Assume("that the listed checks are sufficient (soundness proper) and honest-proof completeness are not decided; the tables list the checks the scheme definitions prescribe")
 	c.Assume("KZG verification (C11), Merkle verification (C16), pairing (C05) are the referenced sub-verifiers")
 }
@@ -314,4 +362,14 @@ func checkArmAgreement(c *Ctx, p *Program, fn *ssa.Function) {
 		}
 	}
 	c.Ob("C17.arms", pkg, fk, "count-and-collect-arms-agree", p.Pos(fn.Pos()), ok, msg)
+}
+
+func elemOf(t types.Type) types.Type {
+	switch u := t.Underlying().(type) {
+	case *types.Slice:
+		return u.Elem()
+	case *types.Pointer:
+		return u.Elem()
+	}
+	return t
 }
